@@ -46,11 +46,14 @@ var fullCfgs = func() []cfg {
 	return out
 }()
 
-// the two most revealing configurations (used for the longest lengths), plus the bare parser
+// the two most revealing configurations (used for the longest lengths), plus
+// the bare parser: plain Script.Compile with the variables pre-declared, and
+// the input as a module body (through the Compiler entry point, which skips
+// Script's 1024-slot globals allocation and costs half as much)
 var twoCfgs = []cfg{
 	{Entry: "parse", Mods: "none"},
 	{Entry: "script", Mods: "none", Vars: true},
-	{Entry: "script", Mods: "modbody", Vars: false},
+	{Entry: "compile", Mods: "modbody", Vars: false},
 }
 
 func cfgSet(name string) []cfg {
@@ -339,6 +342,35 @@ func firstLine(s string) string {
 	return s
 }
 
+// panicFunc names the implementation function in which the panic was raised
+// (first frame of the stack inside the tengo module), e.g.
+// "Compiler.compileForInStmt"; part of the signature so that a different panic
+// with the same runtime message is a different signature.
+func panicFunc(stack string) string {
+	const mod = "github.com/d5/tengo/v2"
+	for _, l := range strings.Split(stack, "\n") {
+		if !strings.HasPrefix(l, mod) || strings.Contains(l, ").ParseFile.func") {
+			// ParseFile's deferred handler re-panics everything that is not its own bailout; the
+			// frames of the original panic are still below it
+			continue
+		}
+		l = l[len(mod):]
+		if i := strings.LastIndexByte(l, '('); i > 0 {
+			l = l[:i]
+		}
+		if i := strings.IndexByte(l, '.'); i >= 0 { // drop "/parser", "/stdlib" package suffix up to the first dot
+			pkg := strings.TrimPrefix(l[:i], "/")
+			l = l[i+1:]
+			if pkg != "" {
+				l = pkg + "." + l
+			}
+		}
+		l = strings.NewReplacer("(*", "", ")", "", "(", "").Replace(l)
+		return msgClass(l, 40)
+	}
+	return "unknown"
+}
+
 // stackTop extracts the first implementation frames of a panic stack.
 func stackTop(stack string) string {
 	var keep []string
@@ -406,7 +438,7 @@ func runCall(input []byte, c cfg) (out callOut) {
 				return
 			}
 			out.class = stage + ":panic"
-			out.fails = append(out.fails, fail{"panic/" + stage + "/" + msgClass(msg, 60),
+			out.fails = append(out.fails, fail{"panic/" + stage + "/" + msgClass(msg, 48) + "@" + panicFunc(stack),
 				fmt.Sprintf("panic: %s [%s]", msg, stackTop(stack))})
 		}
 	}()
